@@ -26,6 +26,13 @@ def describe(e):
 
 
 def run(ctx):
+    _run_stream(ctx)
+    # cross-layer phase: serialised objects must work as operands of later homomorphic operations
+    from checks.pipeline import run_pipeline
+    run_pipeline(ctx)
+
+
+def _run_stream(ctx):
     ctx.assumptions += [
         "objects are built on LogN=4..6 parameter sets (1-50 KB encodings); 29 type classes x 2-5 values each",
         "equality of a decoded object = identical re-encoding, identical BinarySize and every Equal method in both directions",
